@@ -4,6 +4,8 @@ import (
 	"context"
 	"fmt"
 	"strings"
+	"sync"
+	"sync/atomic"
 	"testing"
 	"unicode/utf8"
 
@@ -449,6 +451,42 @@ var checkC19EngineSeq = def("C19/engineseq", func(c engineSeqCase) error {
 	lastRejected := false
 	for i, op := range c.Ops {
 		beforeFEN, before := e.Position(), takeSnap(e.Board())
+		if strings.HasPrefix(op, "reset:") {
+			// any string offered as a new position: accepted (then the game is the one it describes, in
+			// standard form) or rejected (then nothing changes, history included)
+			text := op[len("reset:"):]
+			err := e.Reset(ctx, text)
+			if err != nil {
+				if e.Position() != beforeFEN {
+					return fmt.Errorf("op %d: Reset(%q) was rejected (%v) but changed the reported position from %q to %q", i, text, err, beforeFEN, e.Position())
+				}
+				if d := diffSnap(takeSnap(e.Board()), before, false); d != "" {
+					return fmt.Errorf("op %d: Reset(%q) was rejected (%v) but changed the game state: %s", i, text, err, d)
+				}
+				labels = append(labels, "reset-rejected")
+				continue
+			}
+			p, turn, np, fm, derr := fen.Decode(text)
+			if derr != nil || p == nil {
+				return fmt.Errorf("op %d: Reset(%q) accepted a string that fen.Decode rejects: %v", i, text, derr)
+			}
+			if want := fen.Encode(p, turn, np, fm); e.Position() != want {
+				return fmt.Errorf("op %d: after Reset(%q) the engine reports %q, the string describes %q", i, text, e.Position(), want)
+			}
+			st, perr := oracle.ParseFEN(e.Position())
+			if perr != nil || !wellFormed(&st.Pos) {
+				// accepted, but not a position the rules model can follow (no king, rights without the rook at home, ...): the case ends here
+				stats.Case("C19/engineseq", stats.FP(c.FEN, fmt.Sprint(c.Ops)), true, append(dedup(labels), "reset-accepted-unmodelled")...)
+				return nil
+			}
+			g = oracle.NewGame(st)
+			labels = append(labels, "reset-accepted")
+			if st.Pos.InCheck(!st.Pos.White) {
+				labels = append(labels, "reset-accepted-with-the-opponent-in-check")
+			}
+			lastRejected = false
+			continue
+		}
 		if op == "analyze" || op == "analyze-abandoned" {
 			// an analysis in between (run to depth 1-2 and halted, or abandoned because its context is
 			// already cancelled): looking at a game does not change which strings are legal moves of it
@@ -519,6 +557,25 @@ func TestC19_engineseq(t *testing.T) {
 			p := &g.Cur().Pos
 			switch rapid.IntRange(0, 9).Draw(t, "opkind") {
 			case 0, 1:
+				if rapid.IntRange(0, 4).Draw(t, "newpos") == 0 {
+					var text string
+					switch rapid.IntRange(0, 3).Draw(t, "resetkind") {
+					case 0:
+						text = genFENText(t)
+					case 1: // a well-formed string for a position that cannot arise: the side that just moved is in check
+						_, gg := gen.Game(t, 40)
+						st := *gg.Cur()
+						st.Pos.White, st.Pos.EP = !st.Pos.White, -1
+						text = st.FEN()
+					default:
+						text = gen.Start(t).FEN()
+					}
+					c.Ops = append(c.Ops, "reset:"+text)
+					if st, err := oracle.ParseFEN(text); err == nil && st.FEN() == text && st.Pos.KingSq(true) >= 0 && st.Pos.KingSq(false) >= 0 {
+						g = oracle.NewGame(st) // best guess for the following draws; the check re-derives the model itself
+					}
+					continue
+				}
 				if rapid.IntRange(0, 3).Draw(t, "look") == 0 {
 					c.Ops = append(c.Ops, rapid.SampledFrom([]string{"analyze", "analyze-abandoned"}).Draw(t, "how"))
 					continue
@@ -571,5 +628,75 @@ func TestC19_engineseq(t *testing.T) {
 	}, func(c engineSeqCase) error {
 		stats.Sample("C19/engineseq", c)
 		return checkC19EngineSeq(c)
+	})
+}
+
+// C19/parallel: decoding is a pure function of the string; several goroutines (two engines
+// being set up, a driver and a book loader) decode different strings at the same time.
+var checkC19Parallel = def("C19/parallel", func(texts []string) error {
+	type res struct {
+		ok  bool
+		enc string
+	}
+	// what each string decodes to when nobody else is decoding
+	alone := make([]res, len(texts))
+	for i, s := range texts {
+		if p, turn, np, fm, err := fen.Decode(s); err == nil && p != nil {
+			alone[i] = res{true, fen.Encode(p, turn, np, fm)}
+		}
+	}
+	errs := make([]error, len(texts))
+	var wg sync.WaitGroup
+	var start atomic.Bool
+	for i := range texts {
+		i := i
+		wg.Add(1)
+		go func() {
+			defer wg.Done()
+			defer func() {
+				if r := recover(); r != nil {
+					errs[i] = fmt.Errorf("panic: %v", r)
+				}
+			}()
+			for !start.Load() {
+			}
+			for rep := 0; rep < 200 && errs[i] == nil; rep++ {
+				p, turn, np, fm, err := fen.Decode(texts[i])
+				got := res{}
+				if err == nil && p != nil {
+					got = res{true, fen.Encode(p, turn, np, fm)}
+				}
+				if got != alone[i] {
+					errs[i] = fmt.Errorf("fen.Decode(%q) gives (accepted=%v, %q) while %d other strings are being decoded, and (accepted=%v, %q) alone", texts[i], got.ok, got.enc, len(texts)-1, alone[i].ok, alone[i].enc)
+				}
+			}
+		}()
+	}
+	start.Store(true)
+	wg.Wait()
+	for _, err := range errs {
+		if err != nil {
+			return err
+		}
+	}
+	stats.Case("C19/parallel", stats.FP(fmt.Sprint(texts)), len(texts) > 1, fmt.Sprintf("goroutines:%d", len(texts)))
+	return nil
+})
+
+func TestC19_parallel(t *testing.T) {
+	runRapid(t, "C19/parallel", 1600, func(t *rapid.T) []string {
+		var texts []string
+		for i, n := 0, rapid.IntRange(2, 8).Draw(t, "goroutines"); i < n; i++ {
+			if rapid.IntRange(0, 3).Draw(t, "hostile") == 0 {
+				texts = append(texts, genFENText(t))
+			} else {
+				_, g := gen.Game(t, 30)
+				texts = append(texts, g.Cur().FEN())
+			}
+		}
+		return texts
+	}, func(texts []string) error {
+		stats.Sample("C19/parallel", texts)
+		return checkC19Parallel(texts)
 	})
 }
